@@ -46,3 +46,81 @@ contract(M, 'cfg_accepts_word', {'G': 'CFG', 'w': 'Word', 'verbose': 'Bool'}, re
                   'implies(w != nil(), result == der(G, G.S, w, 0, wlen(w) - 1))'],
          theories=['word', 'wordx', 'cfg'], props=['C07'],
          note='entry point for grammars already in Chomsky normal form; for other grammars the answer is that of the converted grammar (cfg_to_chomsky: C08, bounded)')
+
+
+# ---------------------------------------------------------------------------------------------- C08: the two fixpoint computations of the conversion
+_RHS_IN = 'all(G.R[t].alternative.symbols[k] in %s for k in range(len(G.R[t].alternative.symbols)))'
+_NCLOSED = 'all(implies(0 <= t and t < %s and ' + (_RHS_IN % 'nullable') + ', G.R[t].variable in nullable) for t in ints())'
+_HEADS_OK = 'all(G.R[t].variable in G.V for t in range(len(G.R)))'        # part of CFG.check_validity
+contract(M, 'cfg_nullable_variables', {'G': 'CFG'}, returns='Set[Atom]', requires=[_HEADS_OK], type_invariants=['fin(G.V)'],
+         ensures=['result == Null(G)'], types={'nullable': 'Set[Atom]'},
+         loops={1: {'invariant': ['R == G.R', 'nullable <= Null(G)', 'nullable <= G.V'], 'exit_hints': ['Null_least(G, nullable)'],
+                    'snapshot': {'c0': 'card(G.V - nullable)'}, 'decreases': ['card(G.V - nullable)']},
+                2: {'ghost': 'idx', 'invariant': ['R == G.R', 'nullable <= Null(G)', 'nullable <= G.V', 'implies(not changed, %s)' % (_NCLOSED % 'idx'),
+                                                  'card(G.V - nullable) <= c0', 'implies(changed, card(G.V - nullable) < c0)']}},
+         theories=['cfgx'], props=['C08'],
+         note='total correctness: the result is the least set closed under "all symbols of a right-hand side nullable => head nullable" (soundness of every addition by the rule, completeness by the leastness instance '
+              'for the final set); every round that does not stop adds a variable of the finite set G.V (fin(G.V): type invariant of Python sets; rule heads in V: class invariant checked by CFG.check_validity)')
+
+_U1 = 'len(G.R[t].alternative.symbols) == 1'
+_UB = 'G.R[t].alternative.symbols[0]'
+_UFIRST = 'all(implies(0 <= t and t < %s and G.R[t].variable == A and ' + _U1 + ' and ' + _UB + ' in G.V, ' + _UB + ' in W) for t in ints())'
+_USTEP = 'all(implies(0 <= t and t < %s and ' + _U1 + ' and G.R[t].variable in W1 and ' + _UB + ' in G.V, ' + _UB + ' in W) for t in ints())'
+contract(M, 'cfg_derivable_variables', {'G': 'CFG', 'A': 'Atom'}, returns='Set[Atom]', type_invariants=['fin(G.V)'],
+         ensures=['result == UReach(G, A) - {A}'], types={'W': 'Set[Atom]', 'W1': 'Set[Atom]'},
+         loops={1: {'ghost': 'idx', 'invariant': ['R == G.R', 'V == G.V', 'W1 == set_empty()', 'W <= UReach(G, A)', 'W <= G.V', 'fin(W)', _UFIRST % 'idx']},
+                2: {'invariant': ['R == G.R', 'V == G.V', 'W <= UReach(G, A)', 'W <= G.V', 'W1 <= W', 'fin(W)', 'fin(W1)', _UFIRST % 'len(R)', _USTEP % 'len(R)'],
+                    'exit_hints': ['UReach_least(G, A, W)'], 'decreases': ['card(G.V - W1)'], 'snapshot': {'W1old': 'W1'},
+                    'body_end': ['W1old <= W1', 'card(W1 - W1old) == card(W1) - card(W1old)', 'W1 - W1old != set_empty()', 'card(W1) > card(W1old)',
+                                 'card(G.V - W1) == card(G.V) - card(W1)', 'card(G.V - W1old) == card(G.V) - card(W1old)']},
+                3: {'ghost': 'idx', 'invariant': ['R == G.R', 'V == G.V', 'W <= UReach(G, A)', 'W <= G.V', 'W1 <= W', 'fin(W)', 'fin(W1)', _UFIRST % 'len(R)', _USTEP % 'idx',
+                                                  'W1old <= W1', 'W1old != W1']}},
+         theories=['cfgx'], props=['C08'],
+         note='total correctness: W is the least set containing the targets of the unit rules of A and closed under unit rules (leastness instance for the final set); the outer loop stops because W1 grows strictly within the finite set G.V')
+
+contract(M, 'cfg_fresh_variable', {'G': 'CFG', 'hint': 'Atom'}, returns='Atom', type_invariants=['fin(G.V)'],
+         ensures=['result not in G.V'],
+         loops={1: {'invariant': ['V == G.V', 'index >= 0', 'implies(index >= 1, A == hint_index_name(hint, index - 1))'],
+                    'decreases': ['card(V - unnamed_from(hint, index - 1 if index >= 1 else 0))', '1 if index == 0 else 0'],
+                    'body_end': ['implies(index >= 2, V - unnamed_from(hint, index - 1) == (V - unnamed_from(hint, index - 2)) - {hint_index_name(hint, index - 2)})']},
+                2: {'ghost': 'idx', 'invariant': ['V == G.V', 'all(implies(0 <= k and k < idx, upper_list()[k] in V) for k in ints())'],
+                    'after': ['upper_list()[%d] in V' % k for k in range(26)] + ['upper_letters() <= V', 'card(V - upper_letters()) == card(V) - 26']}},
+         theories=['naming', 'letters'], props=['C08'],
+         note='the variable returned is not a variable of G; with 26 or more variables the search through hint, hint0, hint1, ... terminates (finitely many names are taken); with fewer than 26 variables one of the 26 capital letters is free (counting argument: lemma upper-card), so the function does not fall off its end')
+
+_NEWSTART = ['%s.S not in %s.V', '%s.V == %s.V | {%s.S}', '%s.Sigma == %s.Sigma', '%s.epsilon == %s.epsilon', 'len(%s.R) == len(%s.R) + 1',
+             '%s.R[0].variable == %s.S', 'len(%s.R[0].alternative.symbols) == 1', '%s.R[0].alternative.symbols[0] == %s.S',
+             'all(implies(1 <= t and t < len(%s.R), %s.R[t] == %s.R[t - 1]) for t in ints())']
+def _newstart(new, old_):
+    a = (new, old_)
+    return [_NEWSTART[0] % a, _NEWSTART[1] % (new, old_, new), _NEWSTART[2] % a, _NEWSTART[3] % a, _NEWSTART[4] % a, _NEWSTART[5] % (new, new), _NEWSTART[6] % new,
+            _NEWSTART[7] % a, _NEWSTART[8] % (new, new, old_)]
+contract(M, 'cfg_add_new_start_variable_in_place', {'G': 'CFG', 'hint': 'Atom'}, returns='None', modifies=['G'], defaults={'hint': "'S'"}, type_invariants=['fin(G.V)'],
+         ensures=_newstart('G', 'old(G)'), theories=['naming', 'letters'], props=['C08'],
+         note='phase 1 of the conversion, structure: a variable that was not a variable of G becomes the start variable, its only rule S0 -> S is put in front, all other rules, the terminals and epsilon are unchanged (language preservation: bounded stand-in)')
+contract(M, 'cfg_add_new_start_variable', {'G': 'CFG', 'hint': 'Atom'}, returns='CFG', defaults={'hint': "'S'"}, type_invariants=['fin(G.V)'],
+         ensures=_newstart('result', 'old(G)'), theories=['naming', 'letters'], props=['C08', 'C19'],       # the body rebinds the name G: old(G) is the argument
+         note='phase 1 on a deep copy: the same structure statement about the result, and the argument is not modified (frame obligation)')
+
+contract(M, 'cfg_put_start_variable_in_front', {'G': 'CFG'}, returns='None', modifies=['G'],
+         ensures=['G.V == old(G.V)', 'G.Sigma == old(G.Sigma)', 'G.S == old(G.S)', 'G.epsilon == old(G.epsilon)', 'len(G.R) == len(old(G.R))',
+                  'implies(any(old(G.R)[t].variable == G.S for t in range(len(G.R))), G.R[0].variable == G.S)',
+                  'G.R == old(G.R) or any(0 < i and i < len(G.R) and G.R[0] == old(G.R)[i] and G.R[i] == old(G.R)[0] and all(implies(0 < t and t < len(G.R) and t != i, G.R[t] == old(G.R)[t]) for t in ints()) for i in ints())'],
+         loops={1: {'invariant': ['R == G.R', 'S == G.S', 'G == old(G)', 'all(implies(0 <= t and t < i, R[t].variable != S) for t in ints())']}},
+         theories=[], props=['C08'],
+         note='the first rule whose head is the start variable is exchanged with the first rule (nothing else changes); afterwards the first rule belongs to the start variable whenever it has a rule')
+
+# ---------------------------------------------------------------------------------------------- C12: the structure checks of the Chomsky exercise
+contract('gambatools.cfg', 'Alternative.is_epsilon', {'self': 'Alternative'}, returns='Bool', ensures=['result == (len(self.symbols) == 0)'], theories=[], props=['C12'])
+contract('gambatools.cfg', 'Rule.is_epsilon', {'self': 'Rule'}, returns='Bool', ensures=['result == (len(self.alternative.symbols) == 0)'], theories=[], props=['C12'])
+_MC = 'gambatools.notebook_chomsky'
+contract(_MC, 'check_cfg_has_start_variable', {'G': 'CFG', 'S': 'Atom'}, returns='List[Text]',
+         ensures=['(len(result) == 0) == (G.S == S)'], theories=[], props=['C12', 'C19'], note='no feedback exactly when the start variable is the requested one')
+contract(_MC, 'check_cfg_has_no_epsilon_rules', {'G': 'CFG'}, returns='List[Text]',
+         ensures=['(len(result) == 0) == all(implies(len(G.R[t].alternative.symbols) == 0, G.R[t].variable == G.S) for t in range(len(G.R)))'],
+         loops={1: {'ghost': 'idx', 'invariant': ['all(implies(0 <= t and t < idx and len(G.R[t].alternative.symbols) == 0, G.R[t].variable == G.S) for t in ints())']}},
+         theories=[], props=['C12', 'C19'], note='no feedback exactly when every epsilon rule belongs to the start variable')
+contract(_MC, 'check_cfg_has_right_hand_sides_of_length_at_most_two', {'G': 'CFG'}, returns='List[Text]',
+         ensures=['(len(result) == 0) == all(len(G.R[t].alternative.symbols) <= 2 for t in range(len(G.R)))'],
+         loops={1: {'ghost': 'idx', 'invariant': ['all(implies(0 <= t and t < idx, len(G.R[t].alternative.symbols) <= 2) for t in ints())']}},
+         theories=[], props=['C12', 'C19'], note='no feedback exactly when no right-hand side has more than two symbols')
